@@ -3,6 +3,7 @@ import CandidModel.Driver.Principal
 import CandidModel.Driver.Subtype
 import CandidModel.Driver.Wire
 import CandidModel.Driver.Labels
+import CandidModel.Driver.De
 /-
   Line-protocol driver.  One request per line: `<op>\t<arg>\t<arg>…`; one answer per line:
   `<model answer>\t<spec answer>` (or `bad-op` for what no handler accepts — never a default).
@@ -10,7 +11,7 @@ import CandidModel.Driver.Labels
 open Candid Candid.Driver
 
 def handlers : List (String → List String → Option String) :=
-  [handleLeb, handlePrincipal, handleSubtype, handleWire, handleLabels]
+  [handleLeb, handlePrincipal, handleSubtype, handleWire, handleLabels, handleDe]
 
 def answer (line : String) : String :=
   match line.splitOn "\t" with
